@@ -1,3 +1,47 @@
-/-! # C05 — (stub: property theorems go here; see docs/BUILDING.md) -/
+import PtVerif.Proofs.Xray
+/-!
+# C05 — x-ray scattering factors, SLD, refraction, mirror reflectivity, f0
+
+Model: `PtVerif.Model.Xray` (tied to xsf.py / cromermann.py by `harness/ptv/props/C05.py`).
+-/
 namespace PtVerif.C05
+open PtModel PtModel.Xray
+
+variable {α : Type}
+
+/-- between two consecutive nodes of an increasing table the result is the tabulated value on
+    the left node and numpy's linear formula strictly inside (NaN next to a NaN node) -/
+theorem interp_is_linear_between_nodes [Field α] [LinearOrder α]
+    (pre post : List (α × Option α)) (x0 x1 : α) (y0 y1 : Option α)
+    (ht : Increasing (pre ++ (x0, y0) :: (x1, y1) :: post)) (x : α) (h0 : x0 ≤ x) (h1 : x < x1) :
+    interpNaN (pre ++ (x0, y0) :: (x1, y1) :: post) x
+      = if x = x0 then y0 else linO x0 y0 x1 y1 x :=
+  interpNaN_between pre post x0 x1 y0 y1 ht x h0 h1
+
+/-- the last node returns its tabulated value -/
+theorem interp_last_node [Field α] [LinearOrder α] (pre : List (α × Option α)) (x0 : α)
+    (y0 : Option α) (ht : Increasing (pre ++ [(x0, y0)])) :
+    interpNaN (pre ++ [(x0, y0)]) x0 = y0 := interpNaN_last pre x0 y0 ht
+
+/-- NaN left of the first and right of the last node -/
+theorem interp_outside_none [Field α] [LinearOrder α] (t : List (α × Option α)) (ht : Increasing t)
+    (x : α) (h : (∀ p ∈ t, x < p.1) ∨ (∀ p ∈ t, p.1 < x)) : interpNaN t x = none := by
+  rcases h with h | h
+  · cases t with
+    | nil => simp [interpNaN]
+    | cons p r => obtain ⟨x0, y0⟩ := p; exact interpNaN_left x0 y0 r x (h (x0, y0) (by simp))
+  · exact interpNaN_right t ht x h
+
+/-- `energy=` and `wavelength=` are inverse conversions -/
+theorem energy_wavelength_roundtrip [Field α] [CharZero α] (e : α) (he : e ≠ 0) :
+    xrayEnergy (xrayWavelength e) = e ∧ xrayWavelength (xrayEnergy e) = e :=
+  ⟨xrayEnergy_xrayWavelength e he, xrayWavelength_xrayEnergy e he⟩
+
+/-! non-vacuity: a three-node table with a NaN first node, queried inside, on a node, outside -/
+example : interpNaN [((1 : ℚ), none), (2, some 10), (4, some 20)] 3 = some 15 := by decide +kernel
+example : interpNaN [((1 : ℚ), none), (2, some 10), (4, some 20)] 2 = some 10 := by decide +kernel
+example : interpNaN [((1 : ℚ), none), (2, some 10), (4, some 20)] (3/2) = none := by decide +kernel
+example : Increasing [((1 : ℚ), none), (2, some 10), (4, some 20)] := by
+  unfold Increasing; decide +kernel
+
 end PtVerif.C05
